@@ -129,6 +129,53 @@ def general_position(js1, js2):
     return True
 
 
+def near_vertex_contact(js1, js2, tol=F(1, 10 ** 6)):
+    """some pair of edges meets (or, prolonged by tol, would meet) at a parameter within tol of an end of either edge:
+    the library takes such a crossing for a contact at a vertex (its split ignores parameters within 1e-6 of 0 and 1)"""
+    for j1 in js1:
+        for j2 in js2:
+            for a, b in O.edges_of(j1):
+                for c, d in O.edges_of(j2):
+                    d1 = (b[0] - a[0], b[1] - a[1])
+                    d2 = (d[0] - c[0], d[1] - c[1])
+                    den = d1[0] * d2[1] - d1[1] * d2[0]
+                    if den == 0:
+                        continue
+                    w = (c[0] - a[0], c[1] - a[1])
+                    u = (w[0] * d2[1] - w[1] * d2[0]) / den
+                    v = (w[0] * d1[1] - w[1] * d1[0]) / den
+                    if -tol <= u <= 1 + tol and -tol <= v <= 1 + tol:
+                        if min(abs(u), abs(u - 1), abs(v), abs(v - 1)) < tol:
+                            return True
+    return False
+
+
+def vertex_crossing(rng, den=10):
+    """a polygon A and a triangle B, one edge of B passing through a vertex of A with A's neighbouring edges on
+    opposite sides (a proper crossing AT a vertex); coordinates k/den -- as floats the crossing falls within an ulp of
+    the vertex"""
+    for _ in range(200):
+        P = ccw(star_polygon(rng, n=rng.randint(3, 5), R=30, den=1, center=(0, 0), rmin=0.5))
+        P = [(p[0] / den, p[1] / den) for p in P]
+        n = len(P)
+        i = rng.randrange(n)
+        v, a, b = P[i], P[i - 1], P[(i + 1) % n]
+        d = (F(rng.randint(-20, 20), den), F(rng.randint(-20, 20), den))
+        if d == (0, 0):
+            continue
+        sa = d[0] * (a[1] - v[1]) - d[1] * (a[0] - v[0])
+        sb = d[0] * (b[1] - v[1]) - d[1] * (b[0] - v[0])
+        if sa * sb >= 0:
+            continue
+        k1, k2 = F(rng.randint(1, 3)), F(rng.randint(1, 3))
+        Q = [(v[0] - k1 * d[0], v[1] - k1 * d[1]), (v[0] + k2 * d[0], v[1] + k2 * d[1]),
+             (F(rng.randint(-40, 40), den), F(rng.randint(-40, 40), den))]
+        if not is_simple_polygon(Q):
+            continue
+        return verts_to_jordan(P), verts_to_jordan(ccw(Q))
+    return None
+
+
 def count_crossings(js1, js2):
     n = 0
     for j1 in js1:
